@@ -3,7 +3,7 @@ import os
 # Which DFS variant of the Lean model is compared with the implementation: "current" (the code as it is,
 # F5 included) or "fixed" (after hooks/C15-fix.patch has been committed to /repo). Flip this constant when
 # the fix lands (and set the known_findings.json entry to status "fixed"); VERIF_C15_MODE overrides it.
-MODEL_MODE = "current"
+MODEL_MODE = "fixed"
 _mode = os.environ.get("VERIF_C15_MODE", MODEL_MODE)
 
 F5_KEY = "C15:componentReachDFS:incomplete-reach-cached-after-visited-skip"
